@@ -18,8 +18,15 @@ Open Scope string_scope. Open Scope list_scope.
    so no builder kind is excluded any more. *)
 Theorem c19_invariant : forall origin srv gunzip (bs : list builder) (sched : list nat),
   origin_gunzip origin gunzip -> etag_names_content origin srv -> builders_ok origin bs ->
-  CacheSound origin (dsk (run gunzip srv (init (progs bs)) sched)).
-Proof. exact population_sound. Qed.
+  CacheSound origin (dsk (run gunzip srv (init (progs bs)) sched)) /\
+  (* ... and for the order of cachePackage the source of this run has (the same, unless the
+     repair fixes/C19-F2.patch has been applied), indeed for both orders *)
+  CacheSound origin (dsk (run gunzip srv (init (progs_ord (ctl_last_of_calls cache_package_calls) bs)) sched)) /\
+  forall cl, CacheSound origin (dsk (run gunzip srv (init (progs_ord cl bs)) sched)).
+Proof.
+  intros. split; [apply population_sound; assumption|].
+  split; [|intros cl]; apply population_sound_ord; assumption.
+Qed.
 Print Assumptions c19_invariant.
 
 (* The index-revision half, explicitly.  The origin may change its index
@@ -206,12 +213,15 @@ Print Assumptions c19_tarfile_rebuild.
 Theorem c19_code_order :
   (forall o d e c1 c2, index_calls (populate_index o d e [c1; c2]) false = retrieve_calls) /\
   advertise_call_names = advertise_calls /\
-  (forall o d a s, a_sig a = Some s -> cache_package_call_names (pkg_advs o d a) = cache_package_calls) /\
+  (forall o d a s, a_sig a = Some s ->
+     cache_package_call_names (pkg_advs_ord (ctl_last_of_calls cache_package_calls) o d a) = cache_package_calls) /\
   package_data_call_names = List.filter not_remove package_data_calls /\
   retrieve_literals = ["os.CreateTemp:*.tmp"] /\ expand_literals = ["os.MkdirTemp:expand-apk"].
 Proof.
   split; [intros; reflexivity|]. split; [reflexivity|].
-  split; [intros o d a s H; unfold pkg_advs; rewrite H; reflexivity|].
+  split; [intros o d a s H; unfold pkg_advs_ord, pkg_advs, pkg_advs_ctl_last;
+          destruct (ctl_last_of_calls cache_package_calls) eqn:E; vm_compute in E; try discriminate E;
+          rewrite H; reflexivity|].
   repeat split; reflexivity.
 Qed.
 Print Assumptions c19_code_order.
